@@ -665,6 +665,7 @@ func runHistory(w *harness.W, c hcase, sample bool) {
 	}
 	// per-widget alternation of enter/leave over the whole history
 	hover := map[int]bool{}
+	focusLost := false
 	fail := func(key, what string, i int, got []entry, want string) {
 		w.Violation(key, fmt.Sprintf("op %d (%s): %s; log %s", i, c.Ops[i].Kind+c.Ops[i].Cmd+c.Ops[i].Mouse, what, logString(got)), c, logString(got), want)
 	}
@@ -770,6 +771,23 @@ func runHistory(w *harness.W, c hcase, sample bool) {
 				hover[g.W] = false
 			default:
 				routed = append(routed, g)
+			}
+		}
+		switch o.Kind {
+		case "term-focus-out":
+			focusLost = true
+		case "term-focus-in", "mouse":
+			focusLost = false
+		}
+		if focusLost {
+			// the terminal focus has left and neither it nor the pointer came
+			// back: nothing may be (or become) hovered, whatever is redrawn
+			for id, h := range hover {
+				if h {
+					fail("hover:entered-while-terminal-unfocused", fmt.Sprintf("widget %d is hovered although the terminal focus left and no mouse or focus event has arrived since", id), i, got, "all hover notifications closed until the pointer or the focus comes back")
+					quit()
+					return
+				}
 			}
 		}
 		switch o.Kind {
